@@ -9,7 +9,7 @@ import json, os, sys
 sys.path.insert(0, os.path.join(os.path.dirname(os.path.abspath(__file__)), "..", "lib"))
 import vf
 
-KIND_CODE = {"t": 12, "u": 7, "d": 15}      # uv_handle_type: UV_TCP, UV_NAMED_PIPE, UV_UDP
+KIND_CODE = {"t": 12, "u": 7, "d": 15, "T": 12, "D": 15}      # T/D: AF_INET6 stream / datagram sockets      # uv_handle_type: UV_TCP, UV_NAMED_PIPE, UV_UDP
 K_STALL = "accept_failure_stalls_server"
 # Which uv_accept the model is run as.  False: the current code (POLLIN re-armed only if (err == 0) - known
 # finding accept_failure_stalls_server).  True: the code with notes/C07_fix_accept_rearm.diff.  Flip the
@@ -109,7 +109,7 @@ def gen_ipc(rng):
     ops, behs, sent, msgs = [], [], 0, 0
 
     def kinds(k):
-        return "".join(rng.choice("tud") for _ in range(k))
+        return "".join(rng.choice("tudTD") for _ in range(k))
 
     def claim():
         r = rng.random()
@@ -169,7 +169,7 @@ def gen_ipc_burst(rng):
             k = rng.choice([1, 1, 1, 1, 2, 3])
             if fds + k > 30:
                 continue
-            items.append("M" + "".join(rng.choice("tud") for _ in range(k)))
+            items.append("M" + "".join(rng.choice("tudTD") for _ in range(k)))
             nm += 1
             fds += k
             chunks += 1
@@ -867,7 +867,8 @@ FIXED = {
               "t ; S1 K1 R S0 K1 R Af R S1 K1 R R R S0 R Af R S1 K3 R R S0 K1 R Af R ; ; ",
               "t ; K5 R R Af R Af R ; ; e23 p e4 p e11",
               "t ; K3 R C R ; | ; "],
-    "ipc": ["i4 ; D4 Mt D8 Mu Md D4 Mt R R R R R R R R N Af Af Af Af N ; ; ",
+    "ipc": ["i ; MT R N T MD R N T Af T Af N ; ; ", "i ; MTDtu MDT R R N T Af T Af T Af T Af T Af T Af N ; ; ",
+            "i4 ; D4 Mt D8 Mu Md D4 Mt R R R R R R R R N Af Af Af Af N ; ; ",
             "i1 ; D1 Mt D1 D1 Mu D2 Mdt R R R R R N T Af Af Af Af N ; ; ",
             "i8 ; D8 Mt D16 Mtu D24 Md R R R R R R N Af Af Af Af N ; ; ",
             "i ; " + "Mt R " * 9 + "N T " + "Af N " * 10 + "; ; ",     # 1 + 8 queued: exactly fills the first array
